@@ -539,7 +539,7 @@ class _Ranges:
 _RANGES = {}
 
 
-def rule_type_range(f, site):
+def rule_type_range(f, site, terms=False):
     """P0-range: the operands of a checked `+`, `-`, `*`, shift or division, bounded by interval evaluation of their
     definitions (types, widening conversions, constants, arithmetic of bounded values), cannot make the check fail."""
     t = site.t
@@ -547,7 +547,7 @@ def rule_type_range(f, site):
         return None
     kind = t["kind"]
     m = re.match(r"^Overflow:(Add|Sub|Mul|Shl|Shr)$", kind)
-    if not m and kind not in ("DivisionByZero", "RemainderByZero"):
+    if not m and kind not in ("DivisionByZero", "RemainderByZero", "BoundsCheck"):
         return None
     ent = _RANGES.get(id(site.body))
     if ent is None or ent[0] is not site.body:
@@ -556,6 +556,14 @@ def rule_type_range(f, site):
     R = ent[1]
     NS = len(site.body.blocks[site.bb]["stmts"])        # the terminator's position
     ops = t.get("ops") or []
+    if kind == "BoundsCheck":
+        # `a[i]` with a constant length (an array) and i an unsigned value whose interval lies below it (`x >> 4`, `x & 15`)
+        if len(ops) != 2:
+            return None
+        n, i = R.operand(ops[0], site.bb, NS), R.operand(ops[1], site.bb, NS)
+        if n is not None and i is not None and n[0] == n[1] and 0 <= i[0] and i[1] < n[0]:
+            return "the index lies in [%d, %d] by interval evaluation of its definitions, the array has %d elements" % (i[0], i[1], n[0])
+        return None
     if kind in ("DivisionByZero", "RemainderByZero"):
         if len(ops) != 1:
             return None
@@ -569,6 +577,15 @@ def rule_type_range(f, site):
     if a is None or b is None:
         return None
     op = m.group(1)
+    if terms and op in ("Add", "Sub", "Mul") and len(site.ops) == 2:
+        # what the provenance terms of the operands say in addition (P0-bound's facts: a value a crate function returns,
+        # a number parsed from a string of known length, …); those facts are about non-negative values
+        tb = _bounds_of(f, site.body)
+        ref = []
+        for iv, term in ((a, site.ops[0]), (b, site.ops[1])):
+            u = tb.norm(tb.upper(term)) if iv[1] - iv[0] > 1 << 16 else _UB()
+            ref.append((max(iv[0], 0), min(iv[1], u.abs)) if u.abs is not None and u.abs >= max(iv[0], 0) else iv)
+        a, b = ref
     if op in ("Shl", "Shr"):
         # the check is `amount < bit width of the shifted type`
         cpl = t["cond"].get("c") or t["cond"].get("m")
@@ -1954,6 +1971,616 @@ def rule_invariant_offsets(f, site):
     return "slices the value's own buffer at its own offset field(s); their ordering and bounds are the type invariant kept by the reviewed writers"
 
 
+# --------------------------------------------------------------------------------------
+# P0-bound: upper bounds of index values relative to the length of the buffer they index
+#
+# The fact decided: "this usize value is at most  len(B) − Σ syms − d"  (B a buffer whose length cannot change: an
+# array, a slice, a str, an untouched Bytes) and/or "at most the constant c".  Sources of such facts are the documented
+# contracts of std — `position` / `rposition` / `find_map` over `enumerate` / `next` of `enumerate` yield element
+# indices of what is iterated, `B[s..]` has `len(B) − s` elements, an array type `[T; N]` has N elements — and
+# arithmetic on them (a checked `a − k` that did not panic is `a − k`; a checked sum that did not panic is the sum).
+# Values that come out of a small crate function are bounded by the join over everything the function can return
+# (an interval summary, parameters spelt as the arguments at the call).  Nothing is assumed about names.
+
+class _UB:
+    """`abs`: constant upper bound or None; `rel`: {(base render, syms): d} for `t <= len(base) − Σ syms − d`."""
+    __slots__ = ("abs", "rel")
+
+    def __init__(self, abs_=None, rel=None):
+        self.abs = abs_
+        self.rel = dict(rel or {})
+
+    def known(self):
+        return self.abs is not None or bool(self.rel)
+
+    def __repr__(self):
+        return "UB(abs=%r, rel=%r)" % (self.abs, self.rel)
+
+
+_FIXED_LEN_TY = re.compile(r"^(\[.*\]|str|bytes::Bytes)$")
+_BYTES_SHRINKERS = re.compile(r"^(truncate|clear|split_off|split_to|advance|copy_to_\w+|get_\w+|try_get_\w+|put\w*|extend\w*|resize|unsplit)$")
+_TRANSPARENT_VIEW = ("iter", "iter_mut", "as_ref", "as_mut", "deref", "deref_mut", "as_slice", "as_mut_slice", "as_bytes",
+                     "borrow", "borrow_mut", "into_iter", "as_str", "by_ref", "copied", "cloned")
+
+
+class _Bounds:
+    def __init__(self, f, body, depth=0, cgen=None):
+        self.f = f
+        self.b = body
+        self.depth = depth
+        self.cgen = cgen             # value of the function's only const generic parameter at the call being summarised
+        self.alen = {}               # base render -> constant length (array types)
+        self._base_terms = {}        # base render -> term
+
+    # ---- buffers -------------------------------------------------------------------------------------------------
+    def _ty_of(self, t):
+        """MIR type of a place-like term (without references), or None."""
+        b = self.b
+        k = t[0]
+        ty = None
+        if k == "param":
+            for i in range(1, b.arg_count + 1):
+                if (b.local_name(i) or "_%d" % i) == t[1]:
+                    if b.defs().get(i):
+                        return None                              # a re-assigned parameter is not one value
+                    ty = b.local_ty(i)
+        elif k == "var" and len(t) > 2 and isinstance(t[2], int):
+            ty = b.local_ty(t[2])
+            if ty is not None and not re.match(r"^(&('\w+ )?(mut )?)*\[[^;\]]*; (\d+|[A-Z]\w*)\]$", ty):
+                return None                                      # a re-assigned local: only its array type is a fact
+        elif k == "field" and len(t) > 3 and t[3] in self.f.adts:
+            for v in self.f.adts[t[3]]["variants"]:
+                for fl in v["fields"]:
+                    if str(fl["name"]) == str(t[2]):
+                        ty = fl["ty"]
+            if ty is not None and not re.match(r"^\[[^;\]]*; \d+\]$", ty):
+                # a field that is not an array can be re-assigned through `&mut`: only below a parameter that is
+                # neither mutable nor written to in this body
+                root = strip_deep(t[1])
+                while root[0] == "field":
+                    root = strip_deep(root[1])
+                ok = False
+                if root[0] == "param":
+                    for i in range(1, b.arg_count + 1):
+                        if (b.local_name(i) or "_%d" % i) == root[1]:
+                            ok = "&mut" not in (b.local_ty(i) or "&mut") and not re.search(r"&'\w+ mut ", b.local_ty(i) or "") \
+                                and not b.defs().get(i)
+                if not ok:
+                    return None
+        elif k == "repeat":
+            n = t[2] if str(t[2]).isdigit() else self.cgen if re.match(r"^[A-Z]\w*$", str(t[2])) else None
+            return "[_; %s]" % n if n is not None else None
+        if ty is None:
+            return None
+        ty = re.sub(r"^(&('\w+ )?(mut )?)+", "", ty)
+        if self.cgen is not None:
+            # `[T; N]` in the generic body of a function with a single const parameter, instantiated at the call
+            ty = re.sub(r"^\[([^;\]]*); [A-Z]\w*\]$", lambda m: "[%s; %d]" % (m.group(1), self.cgen), ty)
+        return ty
+
+    def base(self, t):
+        """Render of the buffer a view / iterator term stands for, when its length is fixed; else None."""
+        t = strip_deep(t)
+        for _ in range(12):
+            if t[0] == "mvar":
+                if strip_deep(t[3])[0] in ("repeat", "agg", "call", "const", "bytes") and isinstance(t[2], int):
+                    t = ("var", t[1], t[2])                      # a local array filled in place: its type has the length
+                    break
+                t = strip_deep(t[3])
+            elif t[0] == "call" and (t[3] or {}).get("name") in _TRANSPARENT_VIEW and len(t[2]) == 1 and \
+                    (t[3] or {}).get("krate") in ("core", "std", "alloc", "bytes"):
+                t = strip_deep(t[2][0])
+            elif t[0] == "cast":
+                t = strip_deep(t[1])                             # unsizing `&[T; N]` → `&[T]`
+            elif t[0] == "call" and (t[3] or {}).get("name") in ("index", "index_mut") and len(t[2]) == 2 and \
+                    strip_deep(t[2][1])[0] == "agg" and strip_deep(t[2][1])[2] == "RangeFull":
+                t = strip_deep(t[2][0])                          # `b[..]`
+            else:
+                break
+        if t[0] == "call" and (t[3] or {}).get("name") in ("index", "index_mut") and len(t[2]) == 2:
+            return None                                          # a sub-slice: handled by the caller (sub_base)
+        ty = self._ty_of(t)
+        if ty is None or not _FIXED_LEN_TY.match(ty):
+            return None
+        if ty == "bytes::Bytes" and any(c.krate == "bytes" and _BYTES_SHRINKERS.match(c.name or "") for c in self.b.calls()):
+            return None
+        r = render(t)
+        m = re.match(r"^\[.*; (\d+)\]$", ty)
+        if m:
+            self.alen[r] = int(m.group(1))
+        self._base_terms[r] = t
+        return r
+
+    def sub_base(self, t):
+        """(base render, start term or None) for a view of `B` or of `B[s..]`."""
+        t = strip_deep(t)
+        for _ in range(12):
+            if t[0] == "mvar":
+                t = strip_deep(t[3])
+            elif t[0] == "call" and (t[3] or {}).get("name") in _TRANSPARENT_VIEW and len(t[2]) == 1 and \
+                    (t[3] or {}).get("krate") in ("core", "std", "alloc", "bytes"):
+                t = strip_deep(t[2][0])
+            elif t[0] == "cast":
+                t = strip_deep(t[1])
+            else:
+                break
+        if t[0] == "call" and (t[3] or {}).get("name") == "index" and len(t[2]) == 2 and \
+                (t[3] or {}).get("krate") in ("core", "std", "alloc", "bytes"):
+            rng = strip_deep(t[2][1])
+            if rng[0] == "agg" and rng[2] == "RangeFrom":
+                b = self.base(t[2][0])
+                if b is not None:
+                    return b, strip_deep(dict(rng[3])["start"])
+            return None
+        b = self.base(t)
+        return (b, None) if b is not None else None
+
+    # ---- lattice -------------------------------------------------------------------------------------------------
+    def norm(self, u):
+        for base, n in self.alen.items():
+            d = u.rel.get((base, ()))
+            if d is not None:
+                u.abs = n - d if u.abs is None else min(u.abs, n - d)
+        if u.abs is not None:
+            for base, n in self.alen.items():
+                u.rel[(base, ())] = max(u.rel.get((base, ()), n - u.abs), n - u.abs)
+        return u
+
+    def join(self, us):
+        """What holds of a value that is one of several."""
+        us = [self.norm(u) for u in us]
+        if not us or any(not u.known() for u in us):
+            return _UB()
+        us = [self.norm(u) for u in us]                          # array lengths met while evaluating later alternatives
+        out = _UB(max(u.abs for u in us) if all(u.abs is not None for u in us) else None)
+        for key in us[0].rel:
+            if all(key in u.rel for u in us):
+                out.rel[key] = min(u.rel[key] for u in us)
+        return out
+
+    @staticmethod
+    def both(u, v):
+        """What holds of a value for which both sets of facts hold."""
+        out = _UB(u.abs if v.abs is None else v.abs if u.abs is None else min(u.abs, v.abs), u.rel)
+        for k_, d in v.rel.items():
+            out.rel[k_] = max(out.rel.get(k_, d), d)
+        return out
+
+    def shift(self, u, k):
+        """facts about `t + k` (k may be negative: a checked subtraction that did not panic)."""
+        return _UB(None if u.abs is None else u.abs + k, {key: d - k for key, d in u.rel.items()})
+
+    def add(self, ta, tb, depth=0):
+        ua, ub = self.upper(ta, depth + 1), self.upper(tb, depth + 1)
+        ca, cb = const_eval(ta), const_eval(tb)
+        if ca is not None:
+            return self.shift(ub, ca)
+        if cb is not None:
+            return self.shift(ua, cb)
+        out = _UB(ua.abs + ub.abs if ua.abs is not None and ub.abs is not None else None)
+        for (x, tx, y) in ((ua, ta, ub), (ub, tb, ua)):
+            rx = render(strip_deep(tx))
+            for (base, syms), d in y.rel.items():
+                if rx in syms:                                   # s + (something <= len(B) − s − d)
+                    rest = list(syms)
+                    rest.remove(rx)
+                    key = (base, tuple(rest))
+                    out.rel[key] = max(out.rel.get(key, d), d)
+                elif x.abs is not None:
+                    key = (base, syms)
+                    out.rel[key] = max(out.rel.get(key, d - x.abs), d - x.abs)
+        return out
+
+    # ---- values ---------------------------------------------------------------------------------------------------
+    def upper(self, t, depth=0):
+        t = strip_deep(t)
+        if depth > 12:
+            return _UB()
+        c = const_eval(t)
+        if c is not None:
+            return self.norm(_UB(c)) if c >= 0 else _UB()
+        k = t[0]
+        # payload of an Option / Result
+        if k == "field" and str(t[2]) == "0" and t[1][0] == "variant" and t[1][2] in ("Some", "Continue", "Ok"):
+            return self.payload(t[1][1], (), depth + 1)
+        if k == "field" and t[1][0] == "bin" and str(t[2]) == "0" and t[1][1] in ("AddWithOverflow", "SubWithOverflow"):
+            if t[1][1] == "AddWithOverflow":
+                return self.norm(self.add(t[1][2], t[1][3], depth))
+            kk = const_eval(t[1][3])
+            u = self.upper(t[1][2], depth + 1)
+            return self.norm(self.shift(u, -kk)) if kk is not None and kk >= 0 else u      # a − b <= a (unsigned, no wrap)
+        if k == "bin" and t[1] == "Add":
+            return self.norm(self.add(t[2], t[3], depth))
+        if k == "field":
+            # a component of what an Option / Result / crate function carries: `f(x)?.1`, `find(..)↓Some.0.0`
+            path = []
+            x = t
+            while x[0] == "field" and not (x[1][0] == "variant" and x[1][2] in ("Some", "Continue", "Ok")):
+                path.insert(0, str(x[2]))
+                x = strip_deep(x[1])
+            if x[0] == "field" and str(x[2]) == "0":
+                return self.payload(x[1][1], tuple(path), depth + 1)
+            if x[0] == "call" and (x[3] or {}).get("krate") not in ("core", "std", "alloc", "bytes") and x[1] in self.f.bodies:
+                return self.summary(x, tuple(path), depth)
+            return _UB()
+        if k == "len":
+            b = self.base(t[1])
+            return self.norm(_UB(None, {(b, ()): 0})) if b is not None else _UB()
+        if k == "cast":
+            # a non-negative value that fits the target type is unchanged by `as`
+            u = self.upper(t[1], depth + 1)
+            tr = _ity(str(t[2]))
+            if tr is not None and u.abs is not None and u.abs <= tr[1]:
+                return _UB(u.abs, u.rel if str(t[2]) in ("usize", "u64", "u128") else None)
+            return _UB()
+        if k == "var":
+            vals = var_const_values(t)
+            if vals is not None and min(vals) >= 0:
+                return self.norm(_UB(max(vals)))
+            old = _VAR_BODY[0]
+            _VAR_BODY[0] = self.b
+            try:
+                alts = var_alternatives(t, 0)
+            finally:
+                _VAR_BODY[0] = old
+            if alts and all(_find_var(a) is None or render(a) != render(t) for a in alts):
+                return self.join([self.upper(a, depth + 3) for a in alts])
+            return _UB()
+        if k != "call":
+            return _UB()
+        m = t[3] or {}
+        nm, kr, a = m.get("name"), m.get("krate"), t[2]
+        std = kr in ("core", "std", "alloc", "bytes")
+        if std and nm == "len" and len(a) == 1:
+            b = self.base(a[0])
+            return self.norm(_UB(None, {(b, ()): 0})) if b is not None else _UB()
+        if std and nm in ("unwrap_or", "unwrap_or_default") and a:
+            dflt = self.upper(a[1], depth + 1) if len(a) == 2 else _UB(0)
+            return self.join([self.payload(a[0], (), depth + 1), dflt])
+        if std and nm in ("unwrap", "expect", "unwrap_unchecked") and a:
+            return self.payload(a[0], (), depth + 1)
+        if std and nm == "min" and len(a) == 2:
+            return self.norm(self.both(self.upper(a[0], depth + 1), self.upper(a[1], depth + 1)))
+        if std and nm in ("from", "into", "clone") and len(a) == 1:
+            return self.upper(a[0], depth + 1)
+        if not std and t[1] in self.f.bodies:
+            return self.summary(t, (), depth)
+        return _UB()
+
+    def payload(self, x, path, depth):
+        """Facts about component `path` of what the Option / Result value x carries."""
+        x = strip_deep(x)
+        if depth > 12:
+            return _UB()
+        if x[0] == "agg" and x[2] in ("Some", "Ok", "Continue") and x[3]:
+            return self.component(x[3][0][1], path, depth + 1)
+        if x[0] != "call":
+            return _UB()
+        m = x[3] or {}
+        nm, kr, a = m.get("name"), m.get("krate"), x[2]
+        std = kr in ("core", "std", "alloc", "bytes")
+        it = m.get("trait") == "std::iter::Iterator"
+        if std and nm in ("branch", "ok_or", "ok_or_else", "ok", "filter", "copied", "cloned", "or", "as_ref", "map_err") and a and not it:
+            return self.payload(a[0], path, depth + 1)
+        if std and it and nm in ("position", "rposition") and len(a) == 2 and not path:
+            return self.element_index(a[0])
+        if std and not path and a and (re.match(r"^core::num::<impl std::str::FromStr for u(8|16|32|64|128|size)>::from_str$", m.get("res") or "")
+                                       or (nm == "parse" and re.match(r"^u(8|16|32|64|128|size)$", str((m.get("ga") or ("",))[0])))):
+            # an unsigned number parsed from a string of n bytes has at most n digits
+            sx = strip_deep(a[0])
+            if sx[0] == "field" and str(sx[2]) == "0" and sx[1][0] == "variant" and sx[1][2] == "Ok":
+                sx = strip_deep(sx[1][1])
+            if sx[0] == "call" and (sx[3] or {}).get("name") in ("from_utf8", "from_utf8_unchecked") and len(sx[2]) == 1 and \
+                    (sx[3] or {}).get("krate") in ("core", "std", "alloc"):
+                bs = self.base(sx[2][0])
+                if bs is not None and bs in self.alen and self.alen[bs] <= 18:
+                    return _UB(10 ** self.alen[bs] - 1)
+            return _UB()
+        if std and it and nm in ("find_map", "find", "next", "next_back", "last", "rfind") and a:
+            src = strip_deep(a[0])
+            if src[0] == "mvar":
+                src = strip_deep(src[3])
+            while src[0] == "call" and (src[3] or {}).get("name") in ("rev", "by_ref", "peekable") and len(src[2]) == 1:
+                src = strip_deep(src[2][0])
+                if src[0] == "mvar":
+                    src = strip_deep(src[3])
+            if not (src[0] == "call" and (src[3] or {}).get("name") == "enumerate" and len(src[2]) == 1
+                    and (src[3] or {}).get("trait") == "std::iter::Iterator"):
+                return _UB()
+            idx = self.element_index(src[2][0])
+            if nm != "find_map":
+                return idx if path == ("0",) else _UB()            # the items are `(index, element)`
+            clo = strip_deep(a[1]) if len(a) == 2 else None
+            if clo is None or clo[0] != "closure":
+                return _UB()
+            if _closure_yields_index(self.f, clo[1], path):
+                return idx
+        if not std and x[1] in self.f.bodies:
+            return self.summary(x, ("payload",) + tuple(path), depth)
+        return _UB()
+
+    def component(self, v, path, depth):
+        """Facts about component `path` of the (tuple / struct) value v."""
+        v = strip_deep(v)
+        for i, p in enumerate(path):
+            if v[0] == "agg":
+                d = {str(fn_): val for fn_, val in v[3]}
+                if p not in d:
+                    return _UB()
+                v = strip_deep(d[p])
+            else:
+                x = v                                            # not a literal aggregate: the remaining path of the value
+                for q in path[i:]:
+                    x = ("field", x, q, None)
+                return self.upper(x, depth + 1)
+        return self.upper(v, depth + 1)
+
+    def element_index(self, it):
+        """An index of an element of what `it` iterates over."""
+        sb = self.sub_base(it)
+        if sb is None:
+            return _UB()
+        base, start = sb
+        if start is None:
+            return self.norm(_UB(None, {(base, ()): 1}))
+        c = const_eval(start)
+        if c is not None:
+            return self.norm(_UB(None, {(base, ()): 1 + c}))
+        return _UB(None, {(base, (render(start),)): 1})
+
+    def summary(self, call, path, depth):
+        """Join over everything the crate function can return (component `path` of it); facts relative to a buffer of
+        the callee are kept when that buffer is a parameter, spelt as the argument at this call."""
+        if self.depth + 1 > 3:
+            return _UB()
+        cb = self.f.body(call[1])
+        if cb is None or is_derived(cb) or "::{closure" in call[1] or len(cb.blocks) > 80:
+            return _UB()
+        vals = ret_values(cb)
+        if not vals:
+            return _UB()
+        nums = [g for g in ((call[3] or {}).get("ga") or ()) if re.match(r"^\d+$", str(g))]
+        sub = _Bounds(self.f, cb, self.depth + 1, cgen=int(nums[0]) if len(nums) == 1 else None)
+        mapping = {}
+        for i, a in enumerate(call[2]):
+            mapping[cb.local_name(i + 1) or "_%d" % (i + 1)] = strip_deep(a)
+        outs = []
+        for v in vals:
+            if path and path[0] == "payload":
+                v = strip_deep(v)
+                if v[0] == "agg" and v[2] in ("None", "Err", "Break"):
+                    continue                                    # no payload on this return
+                if v[0] == "call" and (v[3] or {}).get("name") == "from_residual" and \
+                        ((v[3] or {}).get("trait") or "").endswith("ops::FromResidual"):
+                    continue                                    # `?` leaving with the failure
+                u = sub.payload(v, path[1:], depth + 1)
+            else:
+                u = sub.component(v, path, depth + 1)
+            # re-spell the callee's buffers in the caller's terms
+            ren = _UB(u.abs)
+            for (base, syms), d in u.rel.items():
+                if syms:
+                    continue
+                bt = sub._base_terms.get(base)
+                if bt is not None:
+                    nb = self.base(K._subst(bt, mapping))
+                    if nb is not None:
+                        ren.rel[(nb, ())] = d
+            outs.append(ren)
+        if not outs:
+            return _UB()
+        return self.join(outs)
+
+
+def ret_values(body, limit=12):
+    """Every term a body can return (the values assigned to the return place), a multiply defined carrier local followed to
+    its definitions; None when the return place is built piecewise or there are too many."""
+    sy = K.sym_of(body)
+    out = []
+
+    def expand(t, depth):
+        t = strip_deep(t)
+        if t[0] == "var" and len(t) > 2 and isinstance(t[2], int) and depth < 3:
+            ds = body.defs().get(t[2], [])
+            if not ds:
+                return False
+            for d in ds:
+                if d[2] == "assign":
+                    if not expand(sy.rvalue(d[3]["rv"]), depth + 1):
+                        return False
+                elif d[2] == "call":
+                    out.append(strip_deep(sy.call(d[3], d[0])))
+                else:
+                    return False
+            return True
+        out.append(t)
+        return True
+    for d in body.defs().get(0, []):
+        if body.is_cleanup(d[0]):
+            continue
+        if d[2] == "assign":
+            if not expand(sy.rvalue(d[3]["rv"]), 0):
+                return None
+        elif d[2] == "call":
+            out.append(strip_deep(sy.call(d[3], d[0])))
+        else:
+            return None
+    return out if 0 < len(out) <= limit else None
+
+
+def _closure_yields_index(f, cname, path):
+    """Every `Some(..)` the closure `cname` — handed to `find_map` over an `enumerate()` — can return carries, at
+    component `path`, the enumeration index (component 0 of the closure's own argument)."""
+    cb = f.body(cname)
+    if cb is None or cb.arg_count < 2:
+        return False
+    vals = ret_values(cb)
+    if not vals:
+        return False
+    arg = cb.local_name(2) or "_2"
+    some = 0
+    for v in vals:
+        v = strip_deep(v)
+        if v[0] == "agg" and v[2] == "None":
+            continue
+        if not (v[0] == "agg" and v[2] == "Some" and v[3]):
+            return False
+        x = strip_deep(v[3][0][1])
+        for p in path:
+            if x[0] != "agg":
+                return False
+            d = {str(fn_): val for fn_, val in x[3]}
+            if p not in d:
+                return False
+            x = strip_deep(d[p])
+        x = peel(x)
+        if not (x[0] == "field" and str(x[2]) == "0" and peel(x[1])[0] == "param" and peel(x[1])[1] == arg):
+            return False
+        some += 1
+    return some > 0
+
+
+# Types whose reviewed invariant (INVARIANT_TYPES, R-WHO) says: the most significant bit of element 0 of this field is clear.
+SIGN_CLEAR_FIRST = {"repository::x509::Serial": "0"}
+
+
+def rule_sign_bit(f, site):
+    """P0-signbit: `i − 1` where the site is dominated by a test that element i of the octets of a value of an
+    invariant-carrying type (x509::Serial) has its most significant bit set (`o[i] & 0x80 != 0`, `o[i] >= 0x80`,
+    `o[i] > 0x7F`): by the type invariant kept by the reviewed writers (R-WHO) element 0 has that bit clear, so i != 0
+    and the unsigned subtraction cannot wrap."""
+    if site.kind != "assert:Overflow:Sub" or len(site.ops) != 2 or const_eval(site.ops[1]) != 1:
+        return None
+    b = site.body
+    idx = alpha(render(strip_deep(site.ops[0])), b)
+    owners = []
+    for i in range(1, b.arg_count + 1):
+        ty = re.sub(r"^(&('\w+ )?(mut )?)+", "", b.local_ty(i) or "")
+        if ty in SIGN_CLEAR_FIRST and ty in INVARIANT_TYPES:
+            nm = b.local_name(i)
+            owners.append(("self" if nm == "self" else "%%%d" % i, SIGN_CLEAR_FIRST[ty], ty))
+    if not owners:
+        return None
+    guards = set(site_guards(f, site))
+    for nm, fld, ty in owners:
+        wk = (id(f), ty)
+        if wk not in _WRITERS or _WRITERS[wk][0] is not f:
+            _WRITERS[wk] = (f, writers_of(f, ty))
+        if site.fn in _WRITERS[wk][1]:
+            continue                    # inside a function that builds / mutates the value the invariant is not a premise
+        el = "%s.%s[%s]" % (nm, fld, idx)
+        lits = ("0 != BitAnd(%s, 128)" % el, "128 <= %s" % el, "127 < %s" % el, "128 == BitAnd(%s, 128)" % el,
+                "BitAnd(%s, 128) == 128" % el)
+        if any(x in guards for x in lits):
+            return ("element %s of the octets of a %s has its top bit set, which the type invariant (R-WHO %s:writers) excludes "
+                    "for element 0: the index is at least 1" % (idx[:60], short(ty), short(ty)))
+    return None
+
+
+def _byte_len(f, B, t):
+    """Constant number of bytes of a buffer term: an array `[u8; N]`, or the byte view (the type's own AsRef / AsMut<[u8]>
+    impl, which hands out exactly size_of bytes — the premise P0-layout also rests on) of a packed fixed-layout struct."""
+    b = B.base(t)
+    if b is not None and b in B.alen:
+        return B.alen[b]
+    t = strip_deep(t)
+    while t[0] == "mvar" and not isinstance(t[2], int):
+        t = strip_deep(t[3])
+    ty = None
+    if t[0] == "mvar":
+        ty = B.b.local_ty(t[2])
+    elif t[0] == "param":
+        for i in range(1, B.b.arg_count + 1):
+            if (B.b.local_name(i) or "_%d" % i) == t[1]:
+                ty = B.b.local_ty(i)
+    if not ty:
+        return None
+    adt = re.sub(r"^(&('\w+ )?(mut )?)+", "", ty)
+    rec = f.adts.get(adt)
+    if rec is None or rec.get("size") is None:
+        return None
+    packed = "pack: Some" in str(rec.get("repr")) and "IS_C" in str(rec.get("repr"))
+    has_view = any(n.startswith("<%s as std::convert::AsMut<[u8]>>::as_mut" % adt) or n.startswith("<%s as std::convert::AsRef<[u8]>>::as_ref" % adt)
+                   for n in f.bodies)
+    return rec["size"] if packed and has_view else None
+
+
+def rule_equal_copy(f, site):
+    """P0-copy: `dst.copy_from_slice(src)` where both sides have the same constant number of bytes (array types, byte views
+    of packed structs by their layout size)."""
+    if site.kind not in ("call:copy_from_slice", "call:clone_from_slice") or len(site.ops) != 2:
+        return None
+    B = _bounds_of(f, site.body)
+    a, b = _byte_len(f, B, site.ops[0]), _byte_len(f, B, site.ops[1])
+    if a is not None and a == b:
+        return "destination and source both have exactly %d bytes (array type / layout size of the packed struct viewed)" % a
+    return None
+
+
+_BND = {}
+_WRITERS = {}
+
+
+def _bounds_of(f, body):
+    ent = _BND.get(id(body))
+    if ent is None or ent[0] is not body:
+        ent = (body, _Bounds(f, body))
+        _BND[id(body)] = ent
+    return ent[1]
+
+
+def rule_bound(f, site):
+    """P0-bound: the index / cut position / subtrahend is bounded by the length of the very buffer it is used on (or by a
+    constant below the constant length), by the facts collected by `_Bounds`."""
+    if len(site.ops) != 2:
+        return None
+    B = _bounds_of(f, site.body)
+    old = _LEN_FACTS[0]
+    _LEN_FACTS[0] = f
+
+    def within(buf_len_term, buf_term, idx, slack):
+        """idx <= len(buffer) − slack"""
+        u = B.upper(idx)
+        if not u.known():
+            return None
+        n = const_eval(buf_len_term) if buf_len_term is not None else None
+        base = B.base(buf_term) if buf_term is not None else None
+        if n is None and base is not None and base in B.alen:
+            n = B.alen[base]
+        u = B.norm(u)
+        if n is not None and u.abs is not None and u.abs <= n - slack:
+            return "at most %d, the buffer has %d elements" % (u.abs, n)
+        if base is not None and u.rel.get((base, ()), -1) >= slack:
+            return "at most len(%s) − %d by the contract of the std function it comes from" % (base, u.rel[(base, ())])
+        return None
+    try:
+        if site.kind == "assert:BoundsCheck":
+            ln = strip_deep(site.ops[0])
+            r = within(ln if ln[0] != "len" else None, ln[1] if ln[0] == "len" else None, site.ops[1], 1)
+            return r and "element index " + r
+        if site.kind in ("call:index", "call:index_mut"):
+            rng = strip_deep(site.ops[1])
+            if rng[0] != "agg" or rng[2] not in ("RangeFrom", "RangeTo", "RangeToInclusive"):
+                return None
+            d = dict(rng[3])
+            r = within(None, site.ops[0], d["start"] if rng[2] == "RangeFrom" else d["end"], 1 if rng[2] == "RangeToInclusive" else 0)
+            return r and "cut position " + r
+        if site.kind in ("call:split_at", "call:split_at_mut"):
+            r = within(None, site.ops[0], site.ops[1], 0)
+            return r and "cut position " + r
+        if site.kind == "assert:Overflow:Sub":
+            a = strip_deep(site.ops[0])
+            if a[0] == "len" or const_eval(a) is not None:
+                r = within(a if a[0] != "len" else None, a[1] if a[0] == "len" else None, site.ops[1], 0)
+                return r and "subtrahend " + r
+            if a[0] == "call" and (a[3] or {}).get("name") == "len" and len(a[2]) == 1 and (a[3] or {}).get("krate") in ("core", "std", "alloc", "bytes"):
+                r = within(None, a[2][0], site.ops[1], 0)
+                return r and "subtrahend " + r
+        return None
+    finally:
+        _LEN_FACTS[0] = old
+
+
 RULES = [("P0-const", lambda f, s, env: rule_const(s)),
          ("P0-range", lambda f, s, env: rule_type_range(f, s)),
          ("P0-arg", lambda f, s, env: rule_arg_const(s)),
@@ -1966,7 +2593,11 @@ RULES = [("P0-const", lambda f, s, env: rule_const(s)),
          ("P0-vecwriter", lambda f, s, env: rule_vec_writer(f, s)),
          ("P0-invariant", lambda f, s, env: rule_invariant_offsets(f, s)),
          ("P1-redecode", lambda f, s, env: rule_redecode(f, s, env["ber"], env["memo"])),
-         ("P0-absint", lambda f, s, env: rule_absint(f, s))]
+         ("P0-absint", lambda f, s, env: rule_absint(f, s)),
+         ("P0-range", lambda f, s, env: rule_type_range(f, s, terms=True)),
+         ("P0-bound", lambda f, s, env: rule_bound(f, s)),
+         ("P0-signbit", lambda f, s, env: rule_sign_bit(f, s)),
+         ("P0-copy", lambda f, s, env: rule_equal_copy(f, s))]
 
 
 def classify(f, sites):
